@@ -2,11 +2,14 @@
 # usage: tools_refac_matrix_subset.sh "<check ids>" : like tools_refac_matrix.sh, but runs only the named checks on every refactor patch
 # (used after a change to a few rules; the full matrix takes about an hour). C19 (cargo feature matrix) only when named.
 cd /verif
+# MX_REPO=<scratch worktree of /repo> runs the matrix there (VERIF_REPO) and leaves /repo alone
+REPO=${MX_REPO:-/repo}
+[ -n "$MX_REPO" ] && export VERIF_REPO=$MX_REPO
 CHECKS=${1:-"C01 C02 C03 C04 C05 C06 C07 C08 C09 C10 C11 C12 C13 C14 C15 C16 C17 C18 C20"}
 rc=0
 for d in /verif/refactors/*/; do
   id=$(basename $d)
-  git -C /repo apply $d/patch.diff 2>/dev/null || { echo "$id PATCH-DOES-NOT-APPLY"; continue; }
+  git -C $REPO apply $d/patch.diff 2>/dev/null || { echo "$id PATCH-DOES-NOT-APPLY"; continue; }
   line="$id:"
   for c in $CHECKS; do
     out=$(./check $c 2>&1); r=$?
@@ -15,6 +18,6 @@ for d in /verif/refactors/*/; do
     [ $v -eq 0 ] && [ $i -ne 0 ] && line="$line $c:incomplete($i)"
   done
   echo "$line"
-  git -C /repo checkout -- .
+  git -C $REPO checkout -- .
 done
 exit $rc
